@@ -9,6 +9,21 @@ EM0 = OBJECT('hotxlfp.tinyemitter:Emitter', _e=DDICT(other=LISTN(L)))
 EM1 = OBJECT('hotxlfp.tinyemitter:Emitter', _e=DDICT(ev=LISTN(L), other=LISTN(L)))
 EM2 = OBJECT('hotxlfp.tinyemitter:Emitter', _e=DDICT(ev=LISTN(L, L), other=LISTN(L)))
 EM3 = OBJECT('hotxlfp.tinyemitter:Emitter', _e=DDICT(ev=LISTN(L, L, L), other=LISTN(L)))
+# listeners with bound contexts (keyword arguments of their own)
+LA = OBJECT('hotxlfp.tinyemitter:Listener', fn=HOSTFN, ctx=CONST({'a': 1}))
+LB = OBJECT('hotxlfp.tinyemitter:Listener', fn=HOSTFN, ctx=CONST({'b': 2, 'c': 'x'}))
+EM2C = OBJECT('hotxlfp.tinyemitter:Emitter', _e=DDICT(ev=LISTN(LA, LB), other=LISTN(L)))
+EM3C = OBJECT('hotxlfp.tinyemitter:Emitter', _e=DDICT(ev=LISTN(LA, L, LB), other=LISTN(LA)))
+
+
+def same_context(kwargs, ctx):
+    """ the keyword arguments of a call are exactly the listener's bound context """
+    if len(kwargs) != len(ctx):
+        return False
+    for k in ctx:
+        if not (k in kwargs and same(kwargs[k], ctx[k])):
+            return False
+    return True
 
 
 def same_listeners(a, b):
@@ -74,7 +89,7 @@ class Emitter_off:
 class Emitter_emit:
     args = dict(name=CONST('ev'))
     cases = [dict(self=EM0, args=TUPLE()), dict(self=EM1, args=TUPLE(VALUE_T)), dict(self=EM2, args=TUPLE(VALUE_T, VALUE_T)),
-             dict(self=EM3, args=TUPLE(VALUE_T))]
+             dict(self=EM3, args=TUPLE(VALUE_T)), dict(self=EM2C, args=TUPLE(VALUE_T)), dict(self=EM3C, args=TUPLE())]
     no_native = True
 
     def havoc(self, name, args):
@@ -100,6 +115,8 @@ class Emitter_emit:
         for i in range(0, len(hc)):
             if not same(hc[i].fn, snapshot[i].fn) or len(hc[i].args) != len(args):
                 return False
+            if not same_context(hc[i].kwargs, snapshot[i].ctx):
+                return False          # each listener gets its own bound context as keywords, nothing more
             for j in range(0, len(args)):
                 if not same(hc[i].args[j], args[j]):
                     return False
